@@ -223,6 +223,31 @@ theorem granted_requests_are_covered_partial (cfg : Cfg) (plan : Plan) (s : Stor
       simp only [hfr, Option.map_some, Option.some.injEq] at hrej
       exact ⟨ar, hfr, fun h1 h2 h4 => nothing_rejected_means_covered_partial ar.rules p.requests h1 h2 h4 hrej⟩
 
+/-- **If any request is not covered, no role at all is created or updated** (the property's
+sentence, end to end): with an allow-list role `ar` in the store, one granular sub-rule of
+one permission request that Kubernetes' ruleCovers does not find covered by `ar` is enough
+for the reconcile to apply no write, under every fault plan. Same exclusions as
+`tree_sound_partial`. -/
+theorem uncovered_request_means_no_role_partial (a : String) (plan : Plan) (s : Store) (name : String)
+    (p : PR) (ar : Role) (hp : s.prs.find? (·.name = name) = some p)
+    (har : s.roles.find? (·.name = a) = some ar)
+    (hStar : NoLiteralStar ar.rules) (hEmpty : NoEmptyURL ar.rules) (hValid : URLRulesNameless ar.rules)
+    (q : PolicyRule) (hq : q ∈ p.requests) (sub : Sub) (hsub : sub ∈ breakdown q) (hDom : sub.InDomain)
+    (hnc : covers ar.rules sub = false) :
+    (∀ r ∈ applied sem plan 0 (reconcile ⟨some a⟩ name) s, r.isWrite = false) ∧
+    (run sem plan 0 (reconcile ⟨some a⟩ name) s).1 = s := by
+  have h : ∀ p', s.prs.find? (·.name = name) = some p' → rejectedIn ⟨some a⟩ s p' ≠ some [] := by
+    intro p' hp'
+    have : p' = p := by rw [hp] at hp'; exact (Option.some.inj hp').symm
+    subst this
+    simp only [rejectedIn, har, Option.map_some, ne_eq, Option.some.injEq]
+    intro hnil
+    have := nothing_rejected_means_covered_partial ar.rules p'.requests hStar hEmpty hValid hnil q hq sub hsub hDom
+    rw [hnc] at this
+    exact absurd this (by decide)
+  have := reject_means_no_role ⟨some a⟩ plan s name h
+  exact ⟨this.1, this.2.2⟩
+
 /-! ### XRD roles -/
 
 /-- **XRD roles grant exactly the composite and claim resources.** Every rule of every role
